@@ -715,7 +715,8 @@ def c04():
 
 
 def c14():
-    return Check('C14', 'exploration', olc_queries('C14') + olc_fault_queries(), assumptions=OLC_ASSUME + ['allocation failures (the C08 clause of the property): every structural case x every allocation of an insert/remove on the olc_db fails in turn '
+    scans = scanc_queries(only={'sc_rev_rem_mid'}, tier_all='quick') + [q for q in scanc_queries(tier_all='thorough') if not q.name.startswith('sc_rev_rem_mid__')]
+    return Check('C14', 'exploration', olc_queries('C14') + olc_fault_queries() + scans, assumptions=OLC_ASSUME + ['allocation failures (the C08 clause of the property): every structural case x every allocation of an insert/remove on the olc_db fails in turn '
                  '(one registered thread, fault position enumerated); after the exception the same sweep must complete','after every schedule a sweep (get of every key, insert+remove next to every key) must complete within the unwinding bound of the restart loops: '
                  'a lock left held makes the sweep spin past the bound, which is reported'],
                  explanation='No lock left held after any explored schedule; wait cycles among three or more threads are outside the bound (deadlock-freedom proper is not decided).', jobs=14)
@@ -850,16 +851,23 @@ def scanc_wrappers():
     return p
 
 
-def c09():
+def scanc_queries(only=None, tier_all=None):
     u = U('olc_scan.cpp', 'nostats', defines=['UNODB_DETAIL_VERIF_FIXED_ITER_STACK=6', 'KMAX=400'], max_node_type=2, yield_in='unodb::', extra_glue=[scanc_wrappers()], extern_c=['verif_fixed_k'],
           cdefs=['IR2C_SPIN_BLOCKS'], stubs=['tag_ptr', 'node_type', 'node_ptr', 'lib_abort', 'keybuf_noop'], noinline=['@_ZN5unodb6detail10key_buffer(4push|3pop)E'])
     qs = []
     for s, (kmax, what) in SCANC_SCEN.items():
+        if only is not None and s not in only:
+            continue
         for k in range(kmax + 1):
             qs.append(Query('%s__k%d' % (s, k), u, '%s__k%d' % (s, k), unwind=20, checks='pointer', replay='none', trace=False, flags=['--slice-formula'], timeout=600,
-                            tier='quick' if s in SCANC_QUICK else 'thorough',
+                            tier=tier_all or ('quick' if s in SCANC_QUICK else 'thorough'),
                             about=('scanner preempted before its %d-th atomic access by one complete operation of the writer: %s' % (k, what)) if k else 'no overlap: ' + what,
                             bounds={'scenario': s, 'preemption_index': k, 'preemptions': 1, 'threads': 2}))
+    return qs
+
+
+def c09():
+    qs = scanc_queries()
     return Check('C09', 'exploration', qs,
                  assumptions=OLC_ASSUME + ['iterators on the guarded fixed-capacity stack hook; write-only key_buffer stubbed; all values of a key are equal in these scenarios, so "a value its key held at some moment" is the value byte derived from the key',
                                            'one writer operation per scan; the writer is not preempted; scans of 4-5 entries'],
